@@ -330,10 +330,103 @@ def _stat_real(case):
     return out
 
 
+def _dist_job(comm, cases, root):
+    """sample_stat / average / save_to_hdf5 of a DISTRIBUTED sample list (arbitrary partition, sub-communicators)"""
+    import warnings
+    import numpy as np
+    import nifty.cl as ift
+    warnings.simplefilter("ignore")
+    r = comm.Get_rank()
+    dom = ift.UnstructuredDomain(2)
+    outs = []
+    for ci, c in enumerate(cases):
+        comm.Barrier()
+        k = len(c["counts"])
+        o = None
+        if r < k:
+            sub = comm.sub(k)
+            try:
+                lo = sum(c["counts"][:r])
+                mine = [ift.makeField(dom, np.array([x, 2 * x + 1])) for x in c["xs"][lo:lo + c["counts"][r]]]
+                sl = ift.SampleList(mine, comm=sub, domain=dom)
+                m, v = sl.sample_stat()
+                o = {"ss_mean": m.val.asnumpy().tolist(), "ss_var": v.val.asnumpy().tolist(),
+                     "avg": sl.average().val.asnumpy().tolist()}
+                fn = os.path.join(root, f"d{ci}.h5")
+                sl.save_to_hdf5(fn, samples=True, mean=True, std=len(c["xs"]) > 1)
+                if r == 0:
+                    import h5py
+                    with h5py.File(fn, "r") as f:
+                        o["h5_mean"] = np.array(f["stats/mean"]).tolist()
+                        if len(c["xs"]) > 1:
+                            o["h5_std"] = np.array(f["stats/standard deviation"]).tolist()
+                        o["h5_samples"] = [np.array(f["samples"][str(i)]).tolist() for i in range(len(c["xs"]))]
+            except fm.FakeMPIError:
+                raise
+            except Exception as e:  # noqa: BLE001
+                # an exception on one task leaves the others waiting: stop here so that the report names the cause
+                outs.append({"error": type(e).__name__, "msg": str(e)[-60:]})
+                return outs
+        comm.Barrier()
+        outs.append(o)
+    return outs
+
+
+def _dist_failure(res, cases):
+    """a batch that did not complete -> (case index, what, signature)"""
+    errs = [(len(v) - 1, v[-1]) for v in res.values if v and isinstance(v[-1], dict) and "error" in v[-1]]
+    sig = {"site": "statistics-distributed"}
+    if errs:
+        ci, e = min(errs, key=lambda t: t[0])
+        exists = "already exists" in e.get("msg", "") or "exists" in e.get("msg", "")
+        return ci, (f"distributed save_to_hdf5/sample_stat over partition {cases[ci]['counts']}: a task raises {e['error']} "
+                    f"({e.get('msg')}) while the others wait in a collective ({(res.deadlock or {}).get('blocked')})"), \
+            dict(sig, what="task-raises", err=e["error"], cause="file-exists-race" if exists else "other")
+    return 0, f"distributed statistics run does not complete: {res.summary()}", dict(sig, what="no-completion")
+
+
+def _dist_judge(c, per):
+    """per: outputs of the member ranks"""
+    import math
+    xs = c["xs"]
+    m, v = _frac_stats(xs)
+    sc = max(abs(x) for x in xs) + 1.0
+    sig = {"site": "statistics-distributed"}
+    for r, o in enumerate(per):
+        if o is None or "error" in o:
+            return (f"distributed sample_stat/save_to_hdf5 over partition {c['counts']} fails on rank {r}: {o}", dict(sig, what="error"))
+        if not (_close(o["ss_mean"][0], m, sc) and _close(o["avg"][0], m, sc) and _close(o["ss_mean"][1], 2 * m + 1, 2 * sc)):
+            return (f"distributed mean {o['ss_mean']} / average {o['avg']} != {float(m)} for {xs} split {c['counts']}", dict(sig, what="mean"))
+        if not (_close(o["ss_var"][0], v, sc * sc) and _close(o["ss_var"][1], 4 * v, 4 * sc * sc)):
+            return (f"distributed variance {o['ss_var']} != {float(v)} for {xs} split {c['counts']}", dict(sig, what="var"))
+    o = per[0]
+    if not _close(o["h5_mean"][0], m, sc):
+        return (f"HDF5 mean written by the master {o['h5_mean']} != {float(m)}", dict(sig, what="h5-mean"))
+    if len(xs) > 1 and not _close(o["h5_std"][0], math.sqrt(v), sc):
+        return (f"HDF5 standard deviation {o['h5_std']} != {math.sqrt(v)}", dict(sig, what="h5-std"))
+    if o["h5_samples"] != [[x, 2 * x + 1] for x in xs]:
+        return (f"HDF5 samples {o['h5_samples']} are not the samples in global order", dict(sig, what="h5-samples"))
+    return None
+
+
+def _run_dist(cases):
+    root = tempfile.mkdtemp(prefix="c26d_")
+    try:
+        return fm.run(NRANKS, _dist_job, cases, root, seed=None, timeout=600.0)
+    finally:
+        shutil.rmtree(root, ignore_errors=True)
+
+
 def _stat_oracle(case):
     xs = case["xs"]
     if not xs:
         return None
+    if case.get("counts"):
+        res = _run_dist([case])
+        if not res.ok:
+            _, what, sg = _dist_failure(res, [case])
+            return (what, sg)
+        return _dist_judge(case, [res.values[r][0] for r in range(len(case["counts"]))])
     o = _stat_real(case)
     m, v = _frac_stats(xs)
     sc = max(abs(x) for x in xs) + 1.0
@@ -471,7 +564,28 @@ def run(ctx):
         r = _stat_oracle(c)
         if r:
             ctx.counterexample(c, *r)
-    # ---- statistics through distributed sample lists (same numbers as serial is C22; here: against exact values) ----
+    # ---- statistics and HDF5 export of DISTRIBUTED sample lists, against exact values ---------------------------------
+    dcases = []
+    for i in range(ctx.n(12, 80)):
+        n = rng.randrange(1, 8)
+        k = rng.randrange(1, NRANKS + 1)
+        counts = [0] * k
+        for _ in range(n):
+            counts[rng.randrange(k)] += 1
+        if counts[0] == 0:      # SampleList.save_to_hdf5/iterator work with any partition; keep rank 0 possibly empty too
+            pass
+        dcases.append(dict(kind="stat", xs=[rng.randrange(-800, 800) / 8.0 for _ in range(n)], counts=counts))
+    dres = _run_dist(dcases)
+    if not dres.ok:
+        ci, what, sg = _dist_failure(dres, dcases)
+        ctx.counterexample(dcases[ci], what, sg)
+    else:
+        for ci, c in enumerate(dcases):
+            ctx.stat(f"dist-stat:ranks={len(c['counts'])}")
+            ctx.case(c, nontrivial=len(c["counts"]) > 1)
+            r = _dist_judge(c, [dres.values[rk][ci] for rk in range(len(c["counts"]))])
+            if r:
+                ctx.counterexample(c, *r)
     ctx.extra["exhaustive"] = False
 
 
